@@ -22,7 +22,7 @@
 //! counted, never judged (C09).
 use checks::sqlh::*;
 use refmodel::sql::expr::{add, col, eq, int, lit, sub};
-use refmodel::sql::rel::{ColumnDef, CreateTable, Delete, Insert, OnDelete, State, Stmt, TableDef, Update};
+use refmodel::sql::rel::{ColumnDef, CreateIndex, CreateTable, Delete, Insert, OnDelete, State, Stmt, TableDef, Update};
 use refmodel::sql::Ty;
 use refmodel::val::{bag, show_rows, Row, V};
 use std::collections::{BTreeMap, BTreeSet};
@@ -34,35 +34,103 @@ use vcore::{json, Check, Ctx, Reporter, Spec, Value};
 // ---------------------------------------------------------------------------
 #[derive(Clone, Copy, PartialEq, Eq, Hash, Debug, PartialOrd, Ord)]
 enum Kind {
+    /// t(PK, UNIQUE, NOT NULL, CHECK) + FK child c (RESTRICT)
     Combo,
+    /// the same with id AUTO_INCREMENT
     Auto,
+    /// t(id PK, a, b) whose uniqueness comes from `CREATE UNIQUE INDEX ux ON t(a, b)` (separate statement)
+    Uidx,
+    /// t(id PK, a) referenced by n ON DELETE CASCADE children (ca, cb, ..) and one RESTRICT child r.
+    /// TurDB visits the children in HashMap order (randomly seeded per Database), so the DELETE
+    /// candidates of this kind are repeated on several fresh databases.
+    Casc(u8),
 }
-const KINDS: [Kind; 2] = [Kind::Combo, Kind::Auto];
+const CASC_NAMES: [&str; 5] = ["ca", "cb", "cc", "cd", "ce"];
+fn kinds(quick: bool) -> Vec<Kind> {
+    if quick {
+        vec![Kind::Combo, Kind::Auto, Kind::Uidx, Kind::Casc(2)]
+    } else {
+        vec![Kind::Combo, Kind::Auto, Kind::Uidx, Kind::Casc(2), Kind::Casc(4)]
+    }
+}
 impl Kind {
-    fn name(self) -> &'static str {
+    fn name(self) -> String {
         match self {
-            Kind::Combo => "combo",
-            Kind::Auto => "auto",
+            Kind::Combo => "combo".into(),
+            Kind::Auto => "auto".into(),
+            Kind::Uidx => "uidx".into(),
+            Kind::Casc(n) => format!("casc{n}"),
         }
     }
     fn parse(s: &str) -> Option<Kind> {
-        KINDS.iter().copied().find(|k| k.name() == s)
+        match s {
+            "combo" => Some(Kind::Combo),
+            "auto" => Some(Kind::Auto),
+            "uidx" => Some(Kind::Uidx),
+            _ => s.strip_prefix("casc").and_then(|n| n.parse().ok()).filter(|n| (1..=5).contains(n)).map(Kind::Casc),
+        }
+    }
+    fn casc_children(self) -> Vec<&'static str> {
+        match self {
+            Kind::Casc(n) => CASC_NAMES[..n as usize].to_vec(),
+            _ => vec![],
+        }
+    }
+    /// all tables, the parent first
+    fn tables(self) -> Vec<&'static str> {
+        match self {
+            Kind::Combo | Kind::Auto => vec!["t", "c"],
+            Kind::Uidx => vec!["t"],
+            Kind::Casc(_) => {
+                let mut v = vec!["t"];
+                v.extend(self.casc_children());
+                v.push("r");
+                v
+            }
+        }
+    }
+    /// repetitions of a DELETE candidate on fresh databases (child visiting order is random per database)
+    fn delete_reps(self, quick: bool, replay: bool) -> usize {
+        match self {
+            Kind::Casc(_) if replay => 12,
+            Kind::Casc(_) => if quick { 3 } else { 4 },
+            _ => 1,
+        }
     }
     fn ddl(self) -> Vec<Stmt> {
-        let id = ColumnDef::new("id", Ty::Int).primary_key();
-        let id = if self == Kind::Auto { id.auto_increment() } else { id };
-        let t = TableDef::new("t")
-            .col(id)
-            .col(ColumnDef::new("u", Ty::Int).unique())
-            .col(ColumnDef::new("n", Ty::Int).not_null())
-            .col(ColumnDef::new("a", Ty::Int).check(refmodel::sql::expr::ge(col("a"), int(0))));
-        let c = TableDef::new("c").col(ColumnDef::new("cid", Ty::Int).primary_key()).col(ColumnDef::new("pid", Ty::Int).references("t", "id", OnDelete::Restrict));
-        vec![Stmt::CreateTable(CreateTable::new(t)), Stmt::CreateTable(CreateTable::new(c))]
+        match self {
+            Kind::Combo | Kind::Auto => {
+                let id = ColumnDef::new("id", Ty::Int).primary_key();
+                let id = if self == Kind::Auto { id.auto_increment() } else { id };
+                let t = TableDef::new("t")
+                    .col(id)
+                    .col(ColumnDef::new("u", Ty::Int).unique())
+                    .col(ColumnDef::new("n", Ty::Int).not_null())
+                    .col(ColumnDef::new("a", Ty::Int).check(refmodel::sql::expr::ge(col("a"), int(0))));
+                let c = TableDef::new("c").col(ColumnDef::new("cid", Ty::Int).primary_key()).col(ColumnDef::new("pid", Ty::Int).references("t", "id", OnDelete::Restrict));
+                vec![Stmt::CreateTable(CreateTable::new(t)), Stmt::CreateTable(CreateTable::new(c))]
+            }
+            Kind::Uidx => {
+                let t = TableDef::new("t").col(ColumnDef::new("id", Ty::Int).primary_key()).col(ColumnDef::new("a", Ty::Int)).col(ColumnDef::new("b", Ty::Int));
+                vec![Stmt::CreateTable(CreateTable::new(t)), Stmt::CreateIndex(CreateIndex::new("ux", "t", &["a", "b"], true))]
+            }
+            Kind::Casc(_) => {
+                let t = TableDef::new("t").col(ColumnDef::new("id", Ty::Int).primary_key()).col(ColumnDef::new("a", Ty::Int));
+                let mut v = vec![Stmt::CreateTable(CreateTable::new(t))];
+                for c in self.casc_children() {
+                    v.push(Stmt::CreateTable(CreateTable::new(TableDef::new(c).col(ColumnDef::new("cid", Ty::Int).primary_key()).col(ColumnDef::new("pid", Ty::Int).references("t", "id", OnDelete::Cascade)))));
+                }
+                v.push(Stmt::CreateTable(CreateTable::new(TableDef::new("r").col(ColumnDef::new("cid", Ty::Int).primary_key()).col(ColumnDef::new("pid", Ty::Int).references("t", "id", OnDelete::Restrict)))));
+                v
+            }
+        }
     }
 }
 
 const PK_DOMAIN: [i64; 6] = [1, 2, 3, 11, 12, 13];
 const U_DOMAIN: [i64; 10] = [5, 6, 7, 8, 9, 10, 21, 22, 23, 24];
+/// (a, b) pairs looked up / re-inserted on the composite unique index of kind uidx
+const PAIRS: [(i64, i64); 8] = [(1, 1), (1, 2), (2, 1), (3, 1), (3, 2), (7, 7), (7, 8), (7, 9)];
 
 // ---------------------------------------------------------------------------
 // set-up operations (C05-style)
@@ -77,72 +145,100 @@ enum Op {
     Del(u8),
     InsC(u8),
     DelC(u8),
+    /// kind casc: one row referencing parent k into EVERY cascade child
+    InsKids(u8),
+    /// kind casc: one row referencing parent k into the RESTRICT child
+    InsR(u8),
+    DelR(u8),
 }
 impl Op {
     fn name(self) -> String {
         match self {
             Op::Ins(k) => format!("INS{k}"),
-            Op::Ins2 => "INS2".into(),
+            Op::Ins2 => "INSPAIR".into(),
             Op::UpdA(k) => format!("UPDA{k}"),
             Op::UpdU(k) => format!("UPDU{k}"),
             Op::UpdAll => "UPDALL".into(),
             Op::Del(k) => format!("DEL{k}"),
             Op::InsC(k) => format!("INSC{k}"),
             Op::DelC(k) => format!("DELC{k}"),
+            Op::InsKids(k) => format!("INSKIDS{k}"),
+            Op::InsR(k) => format!("INSR{k}"),
+            Op::DelR(k) => format!("DELR{k}"),
         }
     }
     fn kind_name(self) -> &'static str {
         match self {
             Op::Ins(_) => "INS",
-            Op::Ins2 => "INS2",
+            Op::Ins2 => "INSPAIR",
             Op::UpdA(_) => "UPDA",
             Op::UpdU(_) => "UPDU",
             Op::UpdAll => "UPDALL",
             Op::Del(_) => "DEL",
             Op::InsC(_) => "INSC",
             Op::DelC(_) => "DELC",
+            Op::InsKids(_) => "INSKIDS",
+            Op::InsR(_) => "INSR",
+            Op::DelR(_) => "DELR",
         }
     }
-    fn all() -> Vec<Op> {
+    fn all(kind: Kind) -> Vec<Op> {
         let mut v = vec![];
-        for k in 1..=3 {
-            v.push(Op::Ins(k));
-        }
+        let each = |v: &mut Vec<Op>, f: fn(u8) -> Op| {
+            for k in 1..=3 {
+                v.push(f(k));
+            }
+        };
+        each(&mut v, Op::Ins);
         v.push(Op::Ins2);
-        for k in 1..=3 {
-            v.push(Op::UpdA(k));
-        }
-        for k in 1..=3 {
-            v.push(Op::UpdU(k));
+        each(&mut v, Op::UpdA);
+        if matches!(kind, Kind::Combo | Kind::Auto) {
+            each(&mut v, Op::UpdU);
         }
         v.push(Op::UpdAll);
-        for k in 1..=3 {
-            v.push(Op::Del(k));
-        }
-        for k in 1..=3 {
-            v.push(Op::InsC(k));
-        }
-        for k in 1..=3 {
-            v.push(Op::DelC(k));
+        each(&mut v, Op::Del);
+        match kind {
+            Kind::Combo | Kind::Auto => {
+                each(&mut v, Op::InsC);
+                each(&mut v, Op::DelC);
+            }
+            Kind::Casc(_) => {
+                each(&mut v, Op::InsKids);
+                each(&mut v, Op::InsR);
+                each(&mut v, Op::DelR);
+            }
+            Kind::Uidx => {}
         }
         v
     }
-    fn parse(s: &str) -> Option<Op> {
-        Op::all().into_iter().find(|o| o.name() == s)
+    fn parse(s: &str, kind: Kind) -> Option<Op> {
+        Op::all(kind).into_iter().find(|o| o.name() == s)
     }
-    fn stmt(self) -> Stmt {
-        // row of key k: u = 4 + k, n = k, a = 0 / 1 / NULL
-        let row = |k: u8| -> Row { vec![V::Int(k as i64), V::Int(4 + k as i64), V::Int(k as i64), if k == 3 { V::Null } else { V::Int(k as i64 - 1) }] };
-        let by_id = |k: u8| Some(eq(col("id"), int(k as i64)));
+    fn stmts(self, kind: Kind) -> Vec<Stmt> {
+        let row = |k: u8| -> Row {
+            let k64 = k as i64;
+            match kind {
+                // row of key k: u = 4 + k, n = k, a = 0 / 1 / NULL
+                Kind::Combo | Kind::Auto => vec![V::Int(k64), V::Int(4 + k64), V::Int(k64), if k == 3 { V::Null } else { V::Int(k64 - 1) }],
+                // pairs (1,1) (1,2) (2,1): equal a or equal b, distinct pairs
+                Kind::Uidx => vec![V::Int(k64), V::Int(if k == 3 { 2 } else { 1 }), V::Int(if k == 2 { 2 } else { 1 })],
+                Kind::Casc(_) => vec![V::Int(k64), V::Int(k64)],
+            }
+        };
+        let by = |c: &str, k: u8| Some(eq(col(c), int(k as i64)));
+        let kid = |k: u8| -> Vec<Row> { vec![vec![V::Int(k as i64), V::Int(k as i64)]] };
         match self {
-            Op::Ins(k) => Stmt::Insert(Insert::literals("t", &[], vec![row(k)])),
-            Op::Ins2 => Stmt::Insert(Insert::literals("t", &[], vec![row(1), row(2)])),
-            Op::UpdA(k) => Stmt::Update(Update::new("t", vec![("a", add(col("a"), int(2)))], by_id(k))),
-            Op::UpdU(k) => Stmt::Update(Update::new("t", vec![("u", int(7 + k as i64))], by_id(k))),
-            Op::UpdAll => Stmt::Update(Update::new("t", vec![("a", add(col("a"), int(1)))], None)),
-            Op::Del(k) => Stmt::Delete(Delete::new("t", by_id(k))),
-            Op::InsC(k) => Stmt::Insert(Insert::literals("c", &[], vec![vec![V::Int(k as i64), V::Int(k as i64)]])),
-            Op::DelC(k) => Stmt::Delete(Delete::new("c", Some(eq(col("cid"), int(k as i64))))),
+            Op::Ins(k) => vec![Stmt::Insert(Insert::literals("t", &[], vec![row(k)]))],
+            Op::Ins2 => vec![Stmt::Insert(Insert::literals("t", &[], vec![row(1), row(2)]))],
+            Op::UpdA(k) => vec![Stmt::Update(Update::new("t", vec![("a", add(col("a"), int(2)))], by("id", k)))],
+            Op::UpdU(k) => vec![Stmt::Update(Update::new("t", vec![("u", int(7 + k as i64))], by("id", k)))],
+            Op::UpdAll => vec![Stmt::Update(Update::new("t", vec![("a", add(col("a"), int(1)))], None))],
+            Op::Del(k) => vec![Stmt::Delete(Delete::new("t", by("id", k)))],
+            Op::InsC(k) => vec![Stmt::Insert(Insert::literals("c", &[], kid(k)))],
+            Op::DelC(k) => vec![Stmt::Delete(Delete::new("c", by("cid", k)))],
+            Op::InsKids(k) => kind.casc_children().into_iter().map(|c| Stmt::Insert(Insert::literals(c, &[], kid(k)))).collect(),
+            Op::InsR(k) => vec![Stmt::Insert(Insert::literals("r", &[], kid(k)))],
+            Op::DelR(k) => vec![Stmt::Delete(Delete::new("r", by("cid", k)))],
         }
     }
 }
@@ -150,9 +246,12 @@ impl Op {
 /// model + tombstone bookkeeping of a set-up history
 #[derive(Clone)]
 struct Track {
+    kind: Kind,
     st: State,
+    /// t carries tombstones
     tomb_t: bool,
-    tomb_c: BTreeSet<u8>,
+    /// (child table, key) that carries a tombstone
+    tomb_c: BTreeSet<(&'static str, u8)>,
 }
 impl Track {
     fn new(kind: Kind) -> Track {
@@ -160,13 +259,15 @@ impl Track {
         for s in kind.ddl() {
             s.apply(&mut st).expect("model DDL");
         }
-        Track { st, tomb_t: false, tomb_c: BTreeSet::new() }
+        Track { kind, st, tomb_t: false, tomb_c: BTreeSet::new() }
     }
     fn ids(&self, table: &str) -> Vec<u8> {
         self.st.rows(table).iter().filter_map(|r| if let V::Int(i) = r[0] { Some(i as u8) } else { None }).collect()
     }
+    /// referenced by a RESTRICT child
     fn referenced(&self, k: u8) -> bool {
-        self.st.rows("c").iter().any(|r| r[1] == V::Int(k as i64))
+        let tab = if matches!(self.kind, Kind::Casc(_)) { "r" } else { "c" };
+        self.st.rows(tab).iter().any(|r| r[1] == V::Int(k as i64))
     }
     fn u_of(&self, k: u8) -> Option<i64> {
         self.st.rows("t").iter().find(|r| r[0] == V::Int(k as i64)).and_then(|r| if let V::Int(u) = r[1] { Some(u) } else { None })
@@ -175,31 +276,52 @@ impl Track {
     /// clear of the C05 findings (no statement covers a tombstoned row, no partially failing insert)
     fn enabled(&self) -> Vec<Op> {
         let live = self.ids("t");
-        let kids = self.ids("c");
-        Op::all()
+        let combo = matches!(self.kind, Kind::Combo | Kind::Auto);
+        let first_kid = self.kind.casc_children().first().copied().unwrap_or("c");
+        Op::all(self.kind)
             .into_iter()
             .filter(|op| match *op {
                 Op::Ins(k) => !live.contains(&k),
                 Op::Ins2 => !live.contains(&1) && !live.contains(&2),
-                Op::UpdA(k) => live.contains(&k) && k != 3,
+                // (combo: not on the NULL a of row 3)
+                Op::UpdA(k) => live.contains(&k) && !(combo && k == 3),
                 Op::UpdU(k) => live.contains(&k) && self.u_of(k) == Some(4 + k as i64),
                 // (`a + 1` on a NULL a is rejected by TurDB: "unsupported types" — keep it out of the set-up)
-                Op::UpdAll => !live.is_empty() && !self.tomb_t && !live.contains(&3),
+                Op::UpdAll => !live.is_empty() && !self.tomb_t && !(combo && live.contains(&3)),
                 Op::Del(k) => live.contains(&k) && !self.referenced(k),
-                Op::InsC(k) => live.contains(&k) && !kids.contains(&k) && !self.tomb_c.contains(&k),
-                Op::DelC(k) => kids.contains(&k),
+                Op::InsC(k) => live.contains(&k) && !self.ids("c").contains(&k) && !self.tomb_c.contains(&("c", k)),
+                Op::DelC(k) => self.ids("c").contains(&k),
+                Op::InsKids(k) => live.contains(&k) && !self.ids(first_kid).contains(&k) && !self.tomb_c.contains(&(first_kid, k)),
+                Op::InsR(k) => live.contains(&k) && !self.ids("r").contains(&k) && !self.tomb_c.contains(&("r", k)),
+                Op::DelR(k) => self.ids("r").contains(&k),
+            })
+            // and the model accepts it (e.g. no (a, b) collision on the unique index)
+            .filter(|op| {
+                let mut st = self.st.clone();
+                op.stmts(self.kind).iter().all(|s| s.apply(&mut st).is_ok())
             })
             .collect()
     }
     fn apply(&mut self, op: Op) -> bool {
         match op {
-            Op::Del(_) => self.tomb_t = true,
+            Op::Del(k) => {
+                self.tomb_t = true;
+                // cascaded child rows become tombstones too
+                for c in self.kind.casc_children() {
+                    if self.ids(c).contains(&k) {
+                        self.tomb_c.insert((c, k));
+                    }
+                }
+            }
             Op::DelC(k) => {
-                self.tomb_c.insert(k);
+                self.tomb_c.insert(("c", k));
+            }
+            Op::DelR(k) => {
+                self.tomb_c.insert(("r", k));
             }
             _ => {}
         }
-        op.stmt().apply(&mut self.st).is_ok()
+        op.stmts(self.kind).iter().all(|s| s.apply(&mut self.st).is_ok())
     }
 }
 
@@ -220,11 +342,70 @@ struct Cand {
     /// multi-row statements over t without a key: skipped when t carries tombstones (C05 findings)
     needs_clean_t: bool,
 }
+impl Cand {
+    fn is_delete(&self) -> bool {
+        matches!(self.stmt, Stmt::Delete(_))
+    }
+}
 fn cand(skind: &'static str, k: u8, thing: &'static str, variant: &str, stmt: Stmt, needs_clean_t: bool) -> Cand {
     let sql = stmt.to_sql();
     Cand { name: format!("{skind}/k={k}/{thing}{variant}"), skind, k, thing, stmt, sql, needs_clean_t }
 }
 fn candidates(kind: Kind) -> Vec<Cand> {
+    match kind {
+        Kind::Combo | Kind::Auto => candidates_combo(kind),
+        Kind::Uidx => candidates_uidx(),
+        Kind::Casc(_) => candidates_casc(),
+    }
+}
+
+/// kind uidx: statements violating the composite UNIQUE INDEX ux(a, b) (or the PK)
+fn candidates_uidx() -> Vec<Cand> {
+    let mut v = vec![];
+    let row = |id: i64, a: i64, b: i64| -> Row { vec![V::Int(id), V::Int(a), V::Int(b)] };
+    // single-row INSERT duplicating the pair of set-up row k (fails iff that pair is present)
+    for (k, (a, b)) in [(1u8, (1, 1)), (2, (1, 2)), (3, (2, 1))] {
+        v.push(cand("insert1", 1, "unique-index", &format!("-pair{k}"), Stmt::Insert(Insert::literals("t", &[], vec![row(11, a, b)])), false));
+    }
+    v.push(cand("insert1", 1, "unique-index", "-moved-pair", Stmt::Insert(Insert::literals("t", &[], vec![row(11, 3, 1)])), false));
+    v.push(cand("insert1", 1, "pk", "", Stmt::Insert(Insert::literals("t", &[], vec![row(1, 9, 9)])), false));
+    // 3-row INSERT whose k-th row duplicates a stored pair / an earlier pair of the statement / a stored id
+    let good = |i: usize| row(11 + i as i64, 7, 7 + i as i64);
+    for k in 0..3usize {
+        for (variant, bad) in [("-pair1", row(11 + k as i64, 1, 1)), ("-pair3", row(11 + k as i64, 2, 1))] {
+            let rows: Vec<Row> = (0..3).map(|i| if i == k { bad.clone() } else { good(i) }).collect();
+            v.push(cand("insert3", k as u8 + 1, "unique-index", variant, Stmt::Insert(Insert::literals("t", &[], rows)), false));
+        }
+        if k > 0 {
+            let rows: Vec<Row> = (0..3).map(|i| if i == k { row(11 + k as i64, 7, 7) } else { good(i) }).collect();
+            v.push(cand("insert3", k as u8 + 1, "unique-index", "-in-stmt", Stmt::Insert(Insert::literals("t", &[], rows)), false));
+        }
+        let rows: Vec<Row> = (0..3).map(|i| if i == k { row(1, 8, 8) } else { good(i) }).collect();
+        v.push(cand("insert3", k as u8 + 1, "pk", "", Stmt::Insert(Insert::literals("t", &[], rows)), false));
+    }
+    // UPDATE making two rows equal on (a, b)
+    let upd = |set: Vec<(&str, refmodel::sql::expr::Expr)>, w: Option<refmodel::sql::expr::Expr>| Stmt::Update(Update::new("t", set, w));
+    v.push(cand("update-multi", 0, "unique-index", "-b-to-1", upd(vec![("b", int(1))], None), true));
+    v.push(cand("update-multi", 0, "unique-index", "-a-to-1", upd(vec![("a", int(1))], None), true));
+    v.push(cand("update-multi", 0, "unique-index", "-ab-to-5", upd(vec![("a", int(5)), ("b", int(5))], None), true));
+    for k in 1..=3i64 {
+        v.push(cand("update-one", 1, "unique-index", &format!("-id{k}-to-pair1"), upd(vec![("a", int(1)), ("b", int(1))], Some(eq(col("id"), int(k)))), false));
+        v.push(cand("update-one", 1, "unique-index", &format!("-id{k}-b-to-2"), upd(vec![("b", int(2))], Some(eq(col("id"), int(k)))), false));
+    }
+    v.push(cand("update-multi", 0, "pk", "", upd(vec![("id", int(1))], None), true));
+    v
+}
+
+/// kind casc: DELETE of a parent referenced from the RESTRICT child (and from every CASCADE child)
+fn candidates_casc() -> Vec<Cand> {
+    let mut v = vec![cand("delete-parent-cascade", 0, "fk", "-all", Stmt::Delete(Delete::new("t", None)), true)];
+    for k in 1..=3i64 {
+        v.push(cand("delete-parent-cascade", 1, "fk", &format!("-id{k}"), Stmt::Delete(Delete::new("t", Some(eq(col("id"), int(k))))), false));
+    }
+    v
+}
+
+fn candidates_combo(kind: Kind) -> Vec<Cand> {
     let mut v = vec![];
     let good = |i: usize| -> Row { vec![V::Int(11 + i as i64), V::Int(21 + i as i64), V::Int(0), V::Int(0)] };
     let x = || V::Text("x".into());
@@ -308,16 +489,41 @@ fn failing_position(tr: &Track, c: &Cand) -> u8 {
 // ---------------------------------------------------------------------------
 // observation
 // ---------------------------------------------------------------------------
-fn obs_queries() -> Vec<String> {
-    let mut q = vec!["SELECT * FROM t".to_string(), "SELECT * FROM c".to_string(), "SELECT COUNT(*) FROM t".to_string(), "SELECT COUNT(*) FROM c".to_string()];
-    for k in PK_DOMAIN {
-        q.push(format!("SELECT * FROM t WHERE id = {k}"));
-    }
-    for v in U_DOMAIN {
-        q.push(format!("SELECT * FROM t WHERE u = {v}"));
-    }
-    for k in PK_DOMAIN {
-        q.push(format!("SELECT * FROM c WHERE cid = {k}"));
+/// layout: `SELECT *` of every table, `COUNT(*)` of every table, then the index lookups
+fn obs_queries(kind: Kind) -> Vec<String> {
+    let tabs = kind.tables();
+    let mut q: Vec<String> = tabs.iter().map(|t| format!("SELECT * FROM {t}")).collect();
+    q.extend(tabs.iter().map(|t| format!("SELECT COUNT(*) FROM {t}")));
+    match kind {
+        Kind::Combo | Kind::Auto => {
+            for k in PK_DOMAIN {
+                q.push(format!("SELECT * FROM t WHERE id = {k}"));
+            }
+            for v in U_DOMAIN {
+                q.push(format!("SELECT * FROM t WHERE u = {v}"));
+            }
+            for k in PK_DOMAIN {
+                q.push(format!("SELECT * FROM c WHERE cid = {k}"));
+            }
+        }
+        Kind::Uidx => {
+            for k in PK_DOMAIN {
+                q.push(format!("SELECT * FROM t WHERE id = {k}"));
+            }
+            for (a, b) in PAIRS {
+                q.push(format!("SELECT * FROM t WHERE a = {a} AND b = {b}"));
+            }
+        }
+        Kind::Casc(_) => {
+            for k in 1..=3 {
+                q.push(format!("SELECT * FROM t WHERE id = {k}"));
+            }
+            for c in &tabs[1..] {
+                for k in 1..=3 {
+                    q.push(format!("SELECT * FROM {c} WHERE cid = {k}"));
+                }
+            }
+        }
     }
     q
 }
@@ -342,33 +548,57 @@ fn probe(t: &TestDb, kind: Kind) -> Probe {
             o => o.class().to_string(),
         }
     };
-    if kind == Kind::Auto {
-        let r = t.exec("INSERT INTO t (u, n, a) VALUES (999, 0, 0)");
-        items.push(("auto-increment insert".to_string(), cls(&r)));
-        generated = Some(match t.exec("SELECT * FROM t WHERE u = 999") {
-            Res::Rows(rows) => show_rows(&rows.iter().map(|r| vec![r[0].clone()]).collect::<Vec<_>>()),
-            o => o.class().to_string(),
-        });
-    }
-    for k in PK_DOMAIN {
-        let sql = format!("INSERT INTO c VALUES ({}, {k})", 700 + k);
+    let mut run = |items: &mut Vec<(String, String)>, sql: String| {
         let r = t.exec(&sql);
         items.push((sql, cls(&r)));
-    }
-    for k in PK_DOMAIN {
-        let sql = format!("INSERT INTO c VALUES ({k}, NULL)");
-        let r = t.exec(&sql);
-        items.push((sql, cls(&r)));
-    }
-    for k in PK_DOMAIN {
-        let sql = format!("INSERT INTO t VALUES ({k}, {}, 0, 0)", 900 + k);
-        let r = t.exec(&sql);
-        items.push((sql, cls(&r)));
-    }
-    for v in U_DOMAIN {
-        let sql = format!("INSERT INTO t VALUES ({}, {v}, 0, 0)", 800 + v);
-        let r = t.exec(&sql);
-        items.push((sql, cls(&r)));
+    };
+    match kind {
+        Kind::Combo | Kind::Auto => {
+            if kind == Kind::Auto {
+                let r = t.exec("INSERT INTO t (u, n, a) VALUES (999, 0, 0)");
+                items.push(("auto-increment insert".to_string(), cls(&r)));
+                generated = Some(match t.exec("SELECT * FROM t WHERE u = 999") {
+                    Res::Rows(rows) => show_rows(&rows.iter().map(|r| vec![r[0].clone()]).collect::<Vec<_>>()),
+                    o => o.class().to_string(),
+                });
+            }
+            for k in PK_DOMAIN {
+                run(&mut items, format!("INSERT INTO c VALUES ({}, {k})", 700 + k));
+            }
+            for k in PK_DOMAIN {
+                run(&mut items, format!("INSERT INTO c VALUES ({k}, NULL)"));
+            }
+            for k in PK_DOMAIN {
+                run(&mut items, format!("INSERT INTO t VALUES ({k}, {}, 0, 0)", 900 + k));
+            }
+            for v in U_DOMAIN {
+                run(&mut items, format!("INSERT INTO t VALUES ({}, {v}, 0, 0)", 800 + v));
+            }
+        }
+        Kind::Uidx => {
+            for k in PK_DOMAIN {
+                run(&mut items, format!("INSERT INTO t VALUES ({k}, {}, {})", 900 + k, 900 + k));
+            }
+            for (i, (a, b)) in PAIRS.iter().enumerate() {
+                run(&mut items, format!("INSERT INTO t VALUES ({}, {a}, {b})", 800 + i));
+            }
+        }
+        Kind::Casc(_) => {
+            let tabs = kind.tables();
+            for c in &tabs[1..] {
+                for k in 1..=3 {
+                    run(&mut items, format!("INSERT INTO {c} VALUES ({}, {k})", 700 + k));
+                }
+            }
+            for c in &tabs[1..] {
+                for k in 1..=3 {
+                    run(&mut items, format!("INSERT INTO {c} VALUES ({k}, NULL)"));
+                }
+            }
+            for k in 1..=3 {
+                run(&mut items, format!("INSERT INTO t VALUES ({k}, 0)"));
+            }
+        }
     }
     Probe { items, generated }
 }
@@ -393,13 +623,15 @@ struct Baseline {
 fn build(base: &Path, name: &str, kind: Kind, prefix: &[Op], tr: &Track) -> Result<TestDb, String> {
     let t = fresh_db(base, name, kind);
     for op in prefix {
-        let sql = op.stmt().to_sql();
-        let r = t.exec(&sql);
-        if !matches!(r, Res::Affected(n, _) if n >= 1) {
-            return Err(format!("set-up statement {sql} gave {}", r.show()));
+        for st in op.stmts(kind) {
+            let sql = st.to_sql();
+            let r = t.exec(&sql);
+            if !matches!(r, Res::Affected(n, _) if n >= 1) {
+                return Err(format!("set-up statement {sql} gave {}", r.show()));
+            }
         }
     }
-    for tab in ["t", "c"] {
+    for tab in kind.tables() {
         match t.exec(&format!("SELECT * FROM {tab}")) {
             Res::Rows(r) if bag(&r) == bag(&tr.st.rows(tab)) => {}
             o => return Err(format!("set-up state of {tab} is {} but the model has {}", o.show(), show_rows(&bag(&tr.st.rows(tab))))),
@@ -415,12 +647,18 @@ enum Plant {
     HiddenRow,
     /// a failing missing-table INSERT is followed by a hidden insert + double delete: rows unchanged, COUNT(*) of t one too low
     HiddenCount,
+    /// kind uidx: a failing single-row INSERT (unique index) leaves its row behind
+    GhostRow,
+    /// kind casc: a failing DELETE of a parent has already emptied the first CASCADE child
+    CascadeLeak,
 }
 impl Plant {
     fn from_ctx(ctx: &Ctx) -> Plant {
         match ctx.opt("plant") {
             Some("hidden-row") => Plant::HiddenRow,
             Some("hidden-count") => Plant::HiddenCount,
+            Some("ghost-row") => Plant::GhostRow,
+            Some("cascade-leak") => Plant::CascadeLeak,
             Some(o) => vcore::machinery(&format!("unknown plant {o}")),
             None => Plant::None,
         }
@@ -435,15 +673,34 @@ struct Verdict {
     changes: Vec<(&'static str, String, String)>,
 }
 
-/// Run one candidate in the state after `prefix` on its own database and compare with the baseline.
-fn eval(base: &Path, kind: Kind, prefix: &[Op], tr: &Track, c: &Cand, bl: &Baseline, plant: Plant) -> Result<Verdict, String> {
+/// Run one candidate in the state after `prefix` on its own database and compare with the baseline;
+/// `reps` > 1 repeats that on further fresh databases until a change shows (kind casc: the order in
+/// which TurDB visits the child tables differs from database to database).
+fn eval(base: &Path, kind: Kind, prefix: &[Op], tr: &Track, c: &Cand, bl: &Baseline, plant: Plant, reps: usize) -> Result<Verdict, String> {
+    let mut last = eval_once(base, kind, prefix, tr, c, bl, plant)?;
+    for _ in 1..reps {
+        if !last.changes.is_empty() || !(last.class == "err" || last.class == "panic") {
+            break;
+        }
+        last = eval_once(base, kind, prefix, tr, c, bl, plant)?;
+    }
+    Ok(last)
+}
+fn eval_once(base: &Path, kind: Kind, prefix: &[Op], tr: &Track, c: &Cand, bl: &Baseline, plant: Plant) -> Result<Verdict, String> {
+    let nt = kind.tables().len();
     let t = build(base, "cand", kind, prefix, tr)?;
     let r = t.exec(&c.sql);
     match (plant, c.name.as_str()) {
-        (Plant::HiddenRow, "update-multi/k=0/missing-table") => {
+        (Plant::HiddenRow, "update-multi/k=0/missing-table") if nt == 2 => {
             let _ = t.exec("INSERT INTO c VALUES (77, NULL)");
         }
-        (Plant::HiddenCount, "insert3/k=0/missing-table") => {
+        (Plant::GhostRow, n) if kind == Kind::Uidx && n.starts_with("insert1/k=1/unique-index") && !r.ok() => {
+            let _ = t.exec("INSERT INTO t VALUES (11, 99, 99)");
+        }
+        (Plant::CascadeLeak, _) if matches!(kind, Kind::Casc(_)) && c.is_delete() && !r.ok() => {
+            let _ = t.exec("DELETE FROM ca");
+        }
+        (Plant::HiddenCount, "insert3/k=0/missing-table") if nt == 2 => {
             let _ = t.exec("INSERT INTO t VALUES (77, 77, 0, 0)");
             let _ = t.exec("DELETE FROM t WHERE id = 77");
             let _ = t.exec("DELETE FROM t WHERE id = 77");
@@ -455,7 +712,7 @@ fn eval(base: &Path, kind: Kind, prefix: &[Op], tr: &Track, c: &Cand, bl: &Basel
         Res::Err(e) | Res::Panic(e) => v.err_text = e.clone(),
         _ => return Ok(v),
     }
-    let obs = observe(t.db(), &obs_queries());
+    let obs = observe(t.db(), &obs_queries(kind));
     let rows_of = |o: &[ObsItem], i: usize| -> Option<Vec<Row>> {
         match &o[i].res {
             Res::Rows(r) => Some(r.clone()),
@@ -473,7 +730,7 @@ fn eval(base: &Path, kind: Kind, prefix: &[Op], tr: &Track, c: &Cand, bl: &Basel
     };
     // rows
     let mut rows_same = true;
-    for i in 0..2 {
+    for i in 0..nt {
         if obs[i].res != bl.obs[i].res {
             rows_same = false;
             v.changes.push(("rows", format!("{} = {}", obs[i].sql, bl.obs[i].res.show()), obs[i].res.show()));
@@ -482,17 +739,17 @@ fn eval(base: &Path, kind: Kind, prefix: &[Op], tr: &Track, c: &Cand, bl: &Basel
     }
     // count: against the baseline when the rows are unchanged; else against the rows shown now (only if
     // COUNT(*) agreed with the rows before the statement)
-    for i in 0..2 {
-        let before_consistent = count_of(&bl.obs, i + 2) == rows_of(&bl.obs, i).map(|r| r.len() as i64);
-        let want = if rows_same { count_of(&bl.obs, i + 2) } else { rows_of(&obs, i).map(|r| r.len() as i64) };
-        if (rows_same || before_consistent) && (count_of(&obs, i + 2) != want || want.is_none()) {
-            v.changes.push(("count", format!("{} = {:?}{}", obs[i + 2].sql, want, if rows_same { "" } else { " (= rows shown after the failed statement; it agreed with the rows before)" }), obs[i + 2].res.show()));
+    for i in 0..nt {
+        let before_consistent = count_of(&bl.obs, i + nt) == rows_of(&bl.obs, i).map(|r| r.len() as i64);
+        let want = if rows_same { count_of(&bl.obs, i + nt) } else { rows_of(&obs, i).map(|r| r.len() as i64) };
+        if (rows_same || before_consistent) && (count_of(&obs, i + nt) != want || want.is_none()) {
+            v.changes.push(("count", format!("{} = {:?}{}", obs[i + nt].sql, want, if rows_same { "" } else { " (= rows shown after the failed statement; it agreed with the rows before)" }), obs[i + nt].res.show()));
             break;
         }
     }
     // index lookups: differential against the baseline, only meaningful when the rows are unchanged
     if rows_same {
-        for i in 4..obs.len() {
+        for i in 2 * nt..obs.len() {
             if obs[i].res != bl.obs[i].res {
                 v.changes.push(("index", format!("{} = {}", obs[i].sql, bl.obs[i].res.show()), obs[i].res.show()));
                 break;
@@ -521,7 +778,7 @@ fn eval(base: &Path, kind: Kind, prefix: &[Op], tr: &Track, c: &Cand, bl: &Basel
 
 fn baseline(base: &Path, kind: Kind, prefix: &[Op], tr: &Track) -> Result<Baseline, String> {
     let t = build(base, "base", kind, prefix, tr)?;
-    let obs = observe(t.db(), &obs_queries());
+    let obs = observe(t.db(), &obs_queries(kind));
     let probe = probe(&t, kind);
     Ok(Baseline { obs, probe })
 }
@@ -532,7 +789,7 @@ fn signature(c: &Cand, k: u8, model_fails: bool, what: &str) -> String {
 }
 fn case_json(kind: Kind, prefix: &[Op], c: &Cand) -> Value {
     json!({"kind": kind.name(), "prefix": prefix.iter().map(|o| o.name()).collect::<Vec<_>>(), "candidate": c.name,
-           "sql": prefix.iter().map(|o| o.stmt().to_sql()).chain(std::iter::once(c.sql.clone())).collect::<Vec<_>>()})
+           "sql": prefix.iter().flat_map(|o| o.stmts(kind)).map(|s| s.to_sql()).chain(std::iter::once(c.sql.clone())).collect::<Vec<_>>()})
 }
 fn track_of(kind: Kind, prefix: &[Op]) -> Track {
     let mut tr = Track::new(kind);
@@ -552,14 +809,18 @@ struct Explorer<'a> {
     /// signatures whose first example was already minimised by this worker
     minimised: BTreeSet<String>,
     capped: bool,
+    replaying: bool,
 }
 
 impl<'a> Explorer<'a> {
+    fn reps(&self, kind: Kind, c: &Cand) -> usize {
+        if c.is_delete() { kind.delete_reps(self.ctx.quick(), self.replaying) } else { 1 }
+    }
     /// all signatures (with expected / observed) of candidate `c` in the state after `prefix`
     fn judge(&self, kind: Kind, prefix: &[Op], c: &Cand) -> Result<(Verdict, Vec<(String, String, String)>), String> {
         let tr = track_of(kind, prefix);
         let bl = baseline(&self.ctx.scratch, kind, prefix, &tr)?;
-        let v = eval(&self.ctx.scratch, kind, prefix, &tr, c, &bl, self.plant)?;
+        let v = eval(&self.ctx.scratch, kind, prefix, &tr, c, &bl, self.plant, self.reps(kind, c))?;
         let k = if c.k == 0 { failing_position(&tr, c) } else { c.k };
         let model_fails = c.stmt.apply(&mut tr.st.clone()).is_err();
         let sigs = v.changes.iter().map(|(what, e, o)| (signature(c, k, model_fails, what), e.clone(), o.clone())).collect();
@@ -609,7 +870,7 @@ impl<'a> Explorer<'a> {
                 return;
             }
             let model = c.stmt.apply(&mut tr.st.clone());
-            let v = match eval(&self.ctx.scratch, kind, prefix, tr, c, &bl, self.plant) {
+            let v = match eval(&self.ctx.scratch, kind, prefix, tr, c, &bl, self.plant, self.reps(kind, c)) {
                 Ok(v) => v,
                 Err(e) => {
                     rep.count("nondeterministic_setup", 1);
@@ -641,6 +902,9 @@ impl<'a> Explorer<'a> {
             }
             if v.class == "err" || v.class == "panic" {
                 rep.count("judged_failing_statements", 1);
+                if c.skind == "delete-parent-cascade" && !tr.st.rows("ca").is_empty() && model.is_err() {
+                    rep.count("judged_blocked_delete_with_rows_in_cascade_children", 1);
+                }
                 let k = if c.k == 0 { failing_position(tr, c) } else { c.k };
                 rep.count(&format!("judged:k={k}"), 1);
                 if v.changes.is_empty() {
@@ -660,11 +924,12 @@ impl<'a> Explorer<'a> {
         let depth: usize = self.ctx.opt("depth").and_then(|d| d.parse().ok()).unwrap_or(self.ctx.tier.pick(3, 4));
         rep.bound("setup_depth", json!(depth));
         let only_kind = self.ctx.opt("kind").and_then(Kind::parse);
+        let kinds = kinds(self.ctx.quick());
         let mut unit = 0u64;
         // breadth-first: shortest set-up histories first
-        let mut levels: BTreeMap<Kind, Vec<(Vec<Op>, Track)>> = KINDS.iter().map(|k| (*k, vec![(vec![], Track::new(*k))])).collect();
+        let mut levels: BTreeMap<Kind, Vec<(Vec<Op>, Track)>> = kinds.iter().map(|k| (*k, vec![(vec![], Track::new(*k))])).collect();
         for len in 0..=depth {
-            for kind in KINDS {
+            for &kind in &kinds {
                 if only_kind.map(|k| k != kind).unwrap_or(false) {
                     continue;
                 }
@@ -702,13 +967,14 @@ impl Check for C06 {
         let mut s = Spec::new(
             "C06",
             "model_checking",
-            "a state is one set-up history (every sequence of <= D state-aware C05-style operations on the parent table t(PK, UNIQUE, NOT NULL, CHECK) and its FK child c, per schema kind: explicit ids / AUTO_INCREMENT), shortest first; a case (transition) is one failing candidate issued in that state on its own fresh database: 3-row INSERT whose k-th row violates PK / UNIQUE / NOT NULL / CHECK / FK or has a type error, INSERT/UPDATE naming a missing column or table, multi-row UPDATE violating UNIQUE / CHECK / NOT NULL / PK at some row, DELETE of referenced parents. Oracle: statement returned Err (or panicked) => both tables, COUNT(*), every PK/UNIQUE lookup and a destructive re-insert probe equal those of a twin database in the same state without the statement. Distinct = distinct (kind, history, candidate); non-trivial = the candidate returned Err or panicked (was judged).",
+            "a state is one set-up history (every sequence of <= D state-aware C05-style operations on the parent table t(PK, UNIQUE, NOT NULL, CHECK) and its FK child c, per schema kind: explicit ids / AUTO_INCREMENT), shortest first; a case (transition) is one failing candidate issued in that state on its own fresh database: 3-row INSERT whose k-th row violates PK / UNIQUE / NOT NULL / CHECK / FK or has a type error, INSERT/UPDATE naming a missing column or table, multi-row UPDATE violating UNIQUE / CHECK / NOT NULL / PK at some row, DELETE of referenced parents; kind uidx (uniqueness from CREATE UNIQUE INDEX ux ON t(a, b)): single-row / 3-row INSERT and UPDATE duplicating a pair; kind cascN (N ON DELETE CASCADE children + one RESTRICT child, all holding rows of the parent): DELETE of that parent, repeated on 3 (quick) / 4 (thorough) fresh databases because the child visiting order is a per-database HashMap order. Oracle: statement returned Err (or panicked) => both tables, COUNT(*), every PK/UNIQUE lookup and a destructive re-insert probe equal those of a twin database in the same state without the statement. Distinct = distinct (kind, history, candidate); non-trivial = the candidate returned Err or panicked (was judged).",
         );
         s.assumptions = &[
             "self-differential: only `Err => unchanged` is judged; whether the statement should have failed is classified with refmodel::sql::rel and only counted (C09)",
             "the unchanged state is taken from a twin database driven by the same set-up history (determinism of the set-up is checked on every run: the twin's tables must equal the model's)",
             "set-up alphabets avoid the C05 findings (no statement covers a tombstoned row); multi-row UPDATE / DELETE-all candidates are skipped in states with tombstones in t",
             "a value burnt from the AUTO_INCREMENT counter by a failed statement is reported under its own signature component `autoinc`",
+            "kind cascN: TurDB iterates child tables in std HashMap order (random seed per Database); a defect that depends on a CASCADE child being visited before the RESTRICT child is missed by one candidate with probability (1/(N+1))^reps (3.7% quick, 0.16% thorough), but every state with a blocked parent repeats the experiment (replay uses 12 repetitions)",
         ];
         s.cap_quick_s = 90;
         s.cap_thorough_s = 1500;
@@ -721,14 +987,16 @@ impl Check for C06 {
     }
 
     fn run(&self, ctx: &Ctx, rep: &mut Reporter) {
-        for c in ["judged_failing_statements", "failing:insert3:pk", "failing:insert3:unique", "failing:insert3:notnull", "failing:insert3:check", "failing:insert3:type", "failing:insert3:missing-table", "failing:insert3-child:fk", "failing:update-multi:check", "failing:update-multi:notnull", "failing:delete-parent:fk", "judged:k=1", "judged:k=2", "judged:k=3", "explain_index_lookups"] {
+        for c in ["judged_failing_statements", "failing:insert3:pk", "failing:insert3:unique", "failing:insert3:notnull", "failing:insert3:check", "failing:insert3:type", "failing:insert3:missing-table", "failing:insert3-child:fk", "failing:update-multi:check", "failing:update-multi:notnull", "failing:delete-parent:fk", "judged:k=1", "judged:k=2", "judged:k=3", "explain_index_lookups", "failing:insert1:unique-index", "failing:insert3:unique-index", "failing:delete-parent-cascade:fk", "judged_blocked_delete_with_rows_in_cascade_children"] {
             rep.expect_nonzero(c);
         }
         // the lookups of the observation really go through the PK / UNIQUE indexes
         {
             let t = fresh_db(&ctx.scratch, "plan", Kind::Combo);
             for op in [Op::Ins(1), Op::Ins(2), Op::Ins(3)] {
-                let _ = t.exec(&op.stmt().to_sql());
+                for st in op.stmts(Kind::Combo) {
+                    let _ = t.exec(&st.to_sql());
+                }
             }
             for q in ["SELECT * FROM t WHERE id = 2", "SELECT * FROM t WHERE u = 6", "SELECT * FROM c WHERE cid = 2"] {
                 let p = explain(t.db(), q).unwrap_or_default();
@@ -739,8 +1007,8 @@ impl Check for C06 {
                 }
             }
         }
-        let cands = KINDS.iter().map(|k| (*k, candidates(*k))).collect();
-        let mut ex = Explorer { ctx, plant: Plant::from_ctx(ctx), cands, minimised: BTreeSet::new(), capped: false };
+        let cands = kinds(ctx.quick()).iter().map(|k| (*k, candidates(*k))).collect();
+        let mut ex = Explorer { ctx, plant: Plant::from_ctx(ctx), cands, minimised: BTreeSet::new(), capped: false, replaying: false };
         ex.explore(rep);
     }
 
@@ -749,13 +1017,13 @@ impl Check for C06 {
             rep.note("replay: unknown kind");
             return;
         };
-        let prefix: Vec<Op> = case["prefix"].as_array().map(|a| a.iter().filter_map(|x| x.as_str().and_then(Op::parse)).collect()).unwrap_or_default();
+        let prefix: Vec<Op> = case["prefix"].as_array().map(|a| a.iter().filter_map(|x| x.as_str().and_then(|n| Op::parse(n, kind))).collect()).unwrap_or_default();
         let cands = candidates(kind);
         let Some(c) = cands.iter().find(|c| Some(c.name.as_str()) == case["candidate"].as_str()) else {
             rep.note("replay: unknown candidate");
             return;
         };
-        let ex = Explorer { ctx, plant: Plant::from_ctx(ctx), cands: BTreeMap::new(), minimised: BTreeSet::new(), capped: false };
+        let ex = Explorer { ctx, plant: Plant::from_ctx(ctx), cands: BTreeMap::new(), minimised: BTreeSet::new(), capped: false, replaying: true };
         let names: Vec<String> = prefix.iter().map(|o| o.name()).collect();
         rep.case(vcore::util::hash_of(&(kind, &names, &c.name)), true);
         rep.add_states(1);
@@ -775,7 +1043,7 @@ impl Check for C06 {
 
 fn main() {
     if std::env::var("C06_COUNT").is_ok() {
-        for kind in KINDS {
+        for kind in kinds(false) {
             let mut level = vec![Track::new(kind)];
             let mut sizes = vec![1usize];
             for _ in 0..5 {
